@@ -74,7 +74,15 @@ def main():
             if meta.get("retired"):
                 continue
             props = a.props.split(",") if a.props else ([meta["breaks"]] if a.target_only else meta["properties"])
+            tag = os.environ.get("SWEEP_TAG")
+            key0 = "final_target_check" if a.target_only else "final_check"
+            if tag and meta.get(key0, {}).get("sweep") == tag:
+                continue
+            # with --runs N the first N runs of the quick tier are tried first (a prefix of the same seeded run sequence, so
+            # "caught by the prefix" implies "caught by the tier"); the full tier only runs where the prefix stays clean
             res = run_one(os.path.join(base, name, "patch.diff"), None, props, a.runs, tier=a.tier, budget=a.budget)
+            if a.runs and not any(r["rc"] == 1 for r in res.values()):
+                res = run_one(os.path.join(base, name, "patch.diff"), None, props, None, tier=a.tier, budget=a.budget)
             caught = [p for p, r in res.items() if r["rc"] == 1]
             summary[name] = {"caught_by": caught, "results": {p: (r["rc"], r["wall"]) for p, r in res.items()}}
             key = "final_target_check" if a.target_only else "final_check"
@@ -85,6 +93,9 @@ def main():
                                                                   capture_output=True, text=True).stdout.strip(),
                                    "repo_commit": subprocess.run(["git", "-C", "/repo", "rev-parse", "--short", "HEAD"],
                                                                  capture_output=True, text=True).stdout.strip()}
+            if tag:
+                meta[key]["sweep"] = tag
+            meta = dict(json.load(open(meta_p)), **{key: meta[key]})      # keep what others wrote meanwhile
             json.dump(meta, open(meta_p, "w"), indent=1)
             print(name, "caught by", caught, {p: r["rc"] for p, r in res.items()}, flush=True)
         missed = [n for n, s in summary.items() if not s["caught_by"]]
